@@ -255,10 +255,10 @@ void gen_corruptgrid(Plan& p, Rng& r, uint64_t index)
     p.cfg.gf.many_slots = false;
     p.cfg.gf.odd_grids = false;
     p.cfg.gf.no_path = false;
-    p.cfg.gf.big = false;
-    p.steps.push_back(mk("create_track", r, 0, 1 + (int)r.below(2)));
+    p.cfg.gf.big = r.chance(1, 3);  // large, poorly compressible blobs: stored cells longer than the 16 KiB input chunk
+    p.steps.push_back(mk("create_track", r, 0, p.cfg.gf.big ? 3 : 1 + (int)r.below(2)));
     if (p.cfg.schema >= 11 && r.chance(1, 2))
-        p.steps.push_back(mk("f_write", r, 1, 1));
+        p.steps.push_back(mk("f_write", r, 1, p.cfg.gf.big ? 3 : 1));
     uint64_t k = index / 18;
     for (int i = 0; i < 3; ++i)
     {
